@@ -63,7 +63,10 @@ class Creators:
       if gfapy.is_placeholder(key):
         key = id(gfa_line)
       elif isinstance(key, str) and key.isascii() and key.isdigit():
-        keynum = int(key)
+        try:
+          keynum = int(key)
+        except ValueError:
+          keynum = 0 # (Python refuses to convert very long digit strings)
         if keynum > self._max_int_name:
           self._max_int_name = keynum
       self._records[gfa_line.record_type][key] = gfa_line
